@@ -5,6 +5,7 @@ import (
 	"go/constant"
 	"go/token"
 	"go/types"
+	"math/big"
 	"os"
 	"sort"
 	"strings"
@@ -161,7 +162,7 @@ func rulesC05(p *Prog, r *Report) {
 				switch {
 				case reaches(callee, kw.ReadFn):
 					kwCalls = append(kwCalls, c)
-				case kw.ReadRegex != nil && reaches(callee, kw.ReadRegex):
+				case kw.ReadRegex != nil && reaches(callee, kw.ReadRegex), kw.ReadClass != nil && reaches(callee, kw.ReadClass):
 					idCalls = append(idCalls, c)
 				}
 			}
@@ -195,7 +196,7 @@ func rulesC05(p *Prog, r *Report) {
 						case reaches(g, kw.ReadFn):
 							lastKW = i
 							nk++
-						case kw.ReadRegex != nil && reaches(g, kw.ReadRegex):
+						case kw.ReadRegex != nil && reaches(g, kw.ReadRegex), kw.ReadClass != nil && reaches(g, kw.ReadClass):
 							if firstID < 0 {
 								firstID = i
 							}
@@ -1046,7 +1047,145 @@ func cursorMoveCore(p *Prog, r *Report, fb *fnBounds, f *ssa.Function, st ssa.In
 			return
 		}
 	}
+	if why := predicateScanMatch(fb, f, st, d, c); why != "" {
+		r.OK("G4", key, pos, why, "", true)
+		return
+	}
 	r.Bad("G4", key, pos, fmt.Sprintf("the cursor moves forward by %s without a dominating match of that much text: unread input is skipped", d.String()))
+}
+
+// predicateScanMatch: the advance d is a counter n = phi(0, n+1) whose increment is guarded, on every
+// path, by a predicate applied to the n-th byte of the unread text (buffer[cursor:], cursor and buffer
+// unchanged since): the n bytes passed over have each been looked at and accepted.
+func predicateScanMatch(fb *fnBounds, f *ssa.Function, st ssa.Instruction, d lin, c invField) string {
+	if d.k.Sign() != 0 || len(d.c) != 1 {
+		return ""
+	}
+	var name string
+	for v, co := range d.c {
+		if co.Cmp(big.NewRat(1, 1)) != 0 {
+			return ""
+		}
+		name = v
+	}
+	var phi *ssa.Phi
+	for _, b := range f.Blocks {
+		for _, in := range b.Instrs {
+			if ph, ok := in.(*ssa.Phi); ok && ssaName(ph) == name {
+				phi = ph
+			}
+		}
+	}
+	if os.Getenv("SPDXVERIF_TRACE_G4") != "" {
+		fmt.Fprintln(os.Stderr, "G4 scan", name, phi != nil)
+		if phi != nil {
+			for _, e := range phi.Edges {
+				if bo, ok := e.(*ssa.BinOp); ok {
+					for cf := range fb.facts[bo.Block().Index] {
+						fmt.Fprintf(os.Stderr, "  fact %v %T %s\n", cf.pol, cf.c, cf.c)
+					}
+				}
+			}
+		}
+	}
+	if phi == nil {
+		return ""
+	}
+	clsF := "fld:" + c.T.String() + "." + c.F
+	clsG := "fld:" + c.T.String() + "." + c.G
+	// restOf: v is buffer[cursor:] of the receiver, computed when cursor and buffer had the versions they have at st
+	restOf := func(v ssa.Value) bool {
+		isRest := func(sl *ssa.Slice, recv ssa.Value) bool {
+			if sl.High != nil || sl.Max != nil || sl.Low == nil {
+				return false
+			}
+			ld, ok := sl.X.(*ssa.UnOp)
+			if !ok || ld.Op != token.MUL {
+				return false
+			}
+			fa, ok := ld.X.(*ssa.FieldAddr)
+			if !ok || fa.X != recv || fieldOf(fa).Field != c.G {
+				return false
+			}
+			lo, ok := sl.Low.(*ssa.UnOp)
+			if !ok || lo.Op != token.MUL {
+				return false
+			}
+			fl, ok := lo.X.(*ssa.FieldAddr)
+			return ok && fl.X == recv && fieldOf(fl).Field == c.F
+		}
+		var at ssa.Instruction
+		switch t := v.(type) {
+		case *ssa.Slice:
+			if len(f.Params) == 0 || !isRest(t, f.Params[0]) {
+				return false
+			}
+			at = t
+		case *ssa.Call:
+			callee := t.Call.StaticCallee()
+			if callee == nil || !fb.bp.p.InModule(callee) || len(callee.Blocks) != 1 || len(callee.Params) != 1 || len(f.Params) == 0 || t.Call.Args[0] != ssa.Value(f.Params[0]) {
+				return false
+			}
+			if ti := fb.bp.transparent(callee); ti == nil || len(ti.updates) > 0 {
+				return false
+			}
+			ret, ok := callee.Blocks[0].Instrs[len(callee.Blocks[0].Instrs)-1].(*ssa.Return)
+			if !ok || len(ret.Results) != 1 {
+				return false
+			}
+			sl, ok := ret.Results[0].(*ssa.Slice)
+			if !ok || !isRest(sl, callee.Params[0]) {
+				return false
+			}
+			at = t
+		default:
+			return false
+		}
+		if os.Getenv("SPDXVERIF_TRACE_G4") != "" {
+			fmt.Fprintln(os.Stderr, "G4 restOf versions", fb.versionAt(clsF, at), fb.versionAt(clsF, st), fb.versionAt(clsG, at), fb.versionAt(clsG, st))
+		}
+		return fb.versionAt(clsF, at) == fb.versionAt(clsF, st) && fb.versionAt(clsG, at) == fb.versionAt(clsG, st)
+	}
+	// acceptedAt: cond is pred(rest[phi]) for some predicate over one byte
+	acceptedAt := func(cond ssa.Value) bool {
+		call, ok := cond.(*ssa.Call)
+		if !ok || len(call.Call.Args) == 0 || call.Call.IsInvoke() {
+			return false
+		}
+		arg := call.Call.Args[len(call.Call.Args)-1]
+		if len(call.Call.Args) != 1 {
+			return false
+		}
+		switch lk := arg.(type) {
+		case *ssa.Lookup:
+			return lk.Index == ssa.Value(phi) && restOf(lk.X)
+		case *ssa.Index:
+			return lk.Index == ssa.Value(phi) && restOf(lk.X)
+		}
+		return false
+	}
+	for _, e := range phi.Edges {
+		if k, ok := e.(*ssa.Const); ok && k.Value != nil && k.Int64() == 0 {
+			continue
+		}
+		bo, ok := e.(*ssa.BinOp)
+		if !ok || bo.Op != token.ADD || bo.X != ssa.Value(phi) {
+			return ""
+		}
+		if k, ok := bo.Y.(*ssa.Const); !ok || k.Value == nil || k.Int64() != 1 {
+			return ""
+		}
+		guarded := false
+		for cf := range fb.facts[bo.Block().Index] {
+			if cf.pol && acceptedAt(cf.c) {
+				guarded = true
+			}
+		}
+		if !guarded {
+			return ""
+		}
+	}
+	return "advances by a count of bytes of the unread text that a predicate accepted one by one"
 }
 
 // ---------------------------------------------------------------------------------------------
